@@ -160,20 +160,27 @@ type verifC16Slot struct {
 }
 
 type verifC16Row struct {
-	K        string          `json:"k"`
-	Cycle    int             `json:"cycle"`
-	KillMode string          `json:"killmode"`
-	DelayMs  int             `json:"delay_ms"`
-	Opened   bool            `json:"opened"` // the child reported its Open
-	Acks     []int           `json:"acks"`   // per writer: number of calls seen to return nil (a prefix of its steps)
-	Errs     int             `json:"errs"`
-	ReopenOK bool            `json:"reopen_ok"`
-	ReopenMs int             `json:"reopen_ms"`
-	Checked  int             `json:"checked"` // identifiers looked up after this reopen (this cycle's + a sample of earlier cycles')
-	Keys     int             `json:"keys"`    // keys of this cycle found by iteration
-	Window   []*verifC16Slot `json:"window"`  // the slots stored by the last steps before the kill, for the model run
-	Mon      []string        `json:"mon"`
-	Total    int             `json:"total_ids"` // identifiers with an expectation so far
+	K          string          `json:"k"`
+	Cycle      int             `json:"cycle"`
+	KillMode   string          `json:"killmode"`
+	DelayMs    int             `json:"delay_ms"`
+	Opened     bool            `json:"opened"` // the child reported its Open
+	Acks       []int           `json:"acks"`   // per writer: number of calls seen to return nil (a prefix of its steps)
+	Errs       int             `json:"errs"`
+	Deferred   bool            `json:"deferred"`    // the next writer was started right after this kill; verified at a later reopen
+	LaterKills int             `json:"later_kills"` // kills between this one and the reopen that verified it
+	ReopenOK   bool            `json:"reopen_ok"`
+	ReopenMs   int             `json:"reopen_ms"`
+	Checked    int             `json:"checked"` // identifiers looked up after this reopen (this cycle's + a sample of earlier cycles')
+	Keys       int             `json:"keys"`    // keys of this cycle found by iteration
+	Window     []*verifC16Slot `json:"window"`  // the slots stored by the last steps before the kill, for the model run
+	Mon        []string        `json:"mon"`
+	Total      int             `json:"total_ids"` // identifiers with an expectation so far
+}
+
+type verifC16Pending struct {
+	row   *verifC16Row
+	acked []map[int]bool
 }
 
 type verifC16Expect struct {
@@ -196,7 +203,7 @@ func TestVerifC16(t *testing.T) {
 	defer w.Flush()
 	enc := json.NewEncoder(w)
 	seed, _ := strconv.ParseUint(os.Getenv("VERIF_SEED"), 10, 64)
-	cycles := 20
+	cycles := 30
 	if os.Getenv("VERIF_TIER") == "thorough" {
 		cycles = 500
 	}
@@ -210,6 +217,7 @@ func TestVerifC16(t *testing.T) {
 	defer os.RemoveAll(dir)
 	rng := &verifC16Gen{s: seed ^ 0xC16}
 	var expects []verifC16Expect // cumulative: what every later lookup must return
+	var pending []*verifC16Pending
 	for cycle := 0; cycle < cycles; cycle++ {
 		row := &verifC16Row{K: "cycle", Cycle: cycle, Mon: []string{}, Acks: make([]int, verifC16Writers)}
 		pr, pw, err := os.Pipe()
@@ -287,23 +295,34 @@ func TestVerifC16(t *testing.T) {
 				}
 			}
 		}
+		for g := 0; g < verifC16Writers; g++ {
+			row.Acks[g] = len(acked[g])
+		}
+		pending = append(pending, &verifC16Pending{row: row, acked: acked})
+		// 1 kill in 4 is followed directly by the next writer: its Open meets what this kill left (no clean close in between)
+		if rng.below(4) == 0 && cycle != cycles-1 {
+			row.Deferred = true
+			continue
+		}
 		// reopen the same directory
 		t0 := time.Now()
 		d, err := Open(dir)
-		row.ReopenMs = int(time.Since(t0) / time.Millisecond)
+		reopenMs := int(time.Since(t0) / time.Millisecond)
 		if err != nil {
 			row.Mon = append(row.Mon, "the store did not reopen after the kill: "+err.Error())
-			enc.Encode(row)
+			for _, pc := range pending {
+				enc.Encode(pc.row)
+			}
 			break
 		}
-		row.ReopenOK = true
+		mon := &row.Mon
 		lookup := func(id vaa.VAAID) (string, bool) {
 			b, err := d.GetSignedVAABytes(id)
 			if err == ErrVAANotFound {
 				return "", false
 			}
 			if err != nil {
-				row.Mon = append(row.Mon, fmt.Sprintf("lookup of %s after the reopen failed: %v", id.ToString(), err))
+				*mon = append(*mon, fmt.Sprintf("lookup of %s after the reopen failed: %v", id.ToString(), err))
 				return "", false
 			}
 			return hex.EncodeToString(b), true
@@ -320,105 +339,116 @@ func TestVerifC16(t *testing.T) {
 				row.Mon = append(row.Mon, fmt.Sprintf("VAA %s, present after an earlier reopen, is %s after the kill of cycle %d", e.id.ToString(), map[bool]string{true: "different", false: "missing"}[ok], cycle))
 			}
 		}
-		// this cycle
-		for g := 0; g < verifC16Writers; g++ {
-			na := len(acked[g])
-			for j := 0; j < na; j++ {
-				if !acked[g][j] {
-					row.Mon = append(row.Mon, fmt.Sprintf("harness: acknowledgements of writer %d are not a prefix of its steps (step %d missing of %d)", g, j, na))
-					break
-				}
-			}
-			row.Acks[g] = na
-			// steps 0..na-1 returned nil; step na may have been attempted (in flight, or finished with the line not written)
-			p := verifC16NewPlanner(seed, cycle, g)
-			type st struct{ slot, ver int }
-			steps := make([]st, na+1)
-			bySlot := map[int][]int{}
-			for j := 0; j <= na; j++ {
-				s, v := p.step()
-				steps[j] = st{s, v}
-				bySlot[s] = append(bySlot[s], j)
-			}
-			slots := make([]int, 0, len(bySlot))
-			for s := range bySlot {
-				slots = append(slots, s)
-			}
-			sort.Ints(slots)
-			inWindow := map[int]bool{}
-			for j := na; j >= 0 && j > na-8; j-- {
-				inWindow[steps[j].slot] = true
-			}
-			for _, s := range slots {
-				js := bySlot[s]
-				id := verifC16ID(cycle, g, s)
-				b, found := lookup(id)
-				row.Checked++
-				lastAcked := -1 // index into js
-				for k, j := range js {
-					if j < na {
-						lastAcked = k
-					}
-				}
-				gotVer := -1
-				for k := len(js) - 1; k >= 0 && found; k-- {
-					if verifC16Marshal(verifC16VAA(seed, cycle, g, s, steps[js[k]].ver)) == b {
-						gotVer = steps[js[k]].ver
+		// the cycles killed since the last verification, oldest first
+		for pi, pc := range pending {
+			row := pc.row
+			acked := pc.acked
+			cycle := row.Cycle
+			mon = &row.Mon
+			row.ReopenOK = true
+			row.ReopenMs = reopenMs
+			row.LaterKills = len(pending) - 1 - pi
+			for g := 0; g < verifC16Writers; g++ {
+				na := len(acked[g])
+				for j := 0; j < na; j++ {
+					if !acked[g][j] {
+						row.Mon = append(row.Mon, fmt.Sprintf("harness: acknowledgements of writer %d are not a prefix of its steps (step %d missing of %d)", g, j, na))
 						break
 					}
 				}
-				switch {
-				case !found && lastAcked >= 0:
-					row.Mon = append(row.Mon, fmt.Sprintf("acknowledged VAA %s (writer %d step %d of cycle %d, killed %d ms later) is missing after the reopen", id.ToString(), g, js[lastAcked], cycle, row.DelayMs))
-				case found && gotVer < 0:
-					row.Mon = append(row.Mon, fmt.Sprintf("lookup of %s returns bytes that are not any VAA stored under that identifier", id.ToString()))
-				case found && lastAcked >= 0 && gotVer < steps[js[lastAcked]].ver:
-					row.Mon = append(row.Mon, fmt.Sprintf("lookup of %s returns version %d although the store of version %d was acknowledged", id.ToString(), gotVer, steps[js[lastAcked]].ver))
+				// steps 0..na-1 returned nil; step na may have been attempted (in flight, or finished with the line not written)
+				p := verifC16NewPlanner(seed, cycle, g)
+				type st struct{ slot, ver int }
+				steps := make([]st, na+1)
+				bySlot := map[int][]int{}
+				for j := 0; j <= na; j++ {
+					s, v := p.step()
+					steps[j] = st{s, v}
+					bySlot[s] = append(bySlot[s], j)
 				}
-				if found {
-					expects = append(expects, verifC16Expect{id, b})
+				slots := make([]int, 0, len(bySlot))
+				for s := range bySlot {
+					slots = append(slots, s)
 				}
-				if inWindow[s] {
-					ws := &verifC16Slot{G: g, Slot: s, Found: found, GotVer: gotVer}
-					for _, j := range js {
-						ws.Steps = append(ws.Steps, j)
-						ws.Vers = append(ws.Vers, steps[j].ver)
-						ws.Acked = append(ws.Acked, j < na)
-						ws.VAAs = append(ws.VAAs, verifC16Marshal(verifC16VAA(seed, cycle, g, s, steps[j].ver)))
+				sort.Ints(slots)
+				inWindow := map[int]bool{}
+				for j := na; j >= 0 && j > na-8; j-- {
+					inWindow[steps[j].slot] = true
+				}
+				for _, s := range slots {
+					js := bySlot[s]
+					id := verifC16ID(cycle, g, s)
+					b, found := lookup(id)
+					row.Checked++
+					lastAcked := -1 // index into js
+					for k, j := range js {
+						if j < na {
+							lastAcked = k
+						}
 					}
-					if found && gotVer < 0 {
-						ws.Bytes = b
+					gotVer := -1
+					for k := len(js) - 1; k >= 0 && found; k-- {
+						if verifC16Marshal(verifC16VAA(seed, cycle, g, s, steps[js[k]].ver)) == b {
+							gotVer = steps[js[k]].ver
+							break
+						}
 					}
-					row.Window = append(row.Window, ws)
+					switch {
+					case !found && lastAcked >= 0:
+						row.Mon = append(row.Mon, fmt.Sprintf("acknowledged VAA %s (writer %d step %d of cycle %d, killed %d ms later, %d further kills before this reopen) is missing after the reopen", id.ToString(), g, js[lastAcked], cycle, row.DelayMs, row.LaterKills))
+					case found && gotVer < 0:
+						row.Mon = append(row.Mon, fmt.Sprintf("lookup of %s returns bytes that are not any VAA stored under that identifier", id.ToString()))
+					case found && lastAcked >= 0 && gotVer < steps[js[lastAcked]].ver:
+						row.Mon = append(row.Mon, fmt.Sprintf("lookup of %s returns version %d although the store of version %d was acknowledged", id.ToString(), gotVer, steps[js[lastAcked]].ver))
+					}
+					if found {
+						expects = append(expects, verifC16Expect{id, b})
+					}
+					if inWindow[s] {
+						ws := &verifC16Slot{G: g, Slot: s, Found: found, GotVer: gotVer}
+						for _, j := range js {
+							ws.Steps = append(ws.Steps, j)
+							ws.Vers = append(ws.Vers, steps[j].ver)
+							ws.Acked = append(ws.Acked, j < na)
+							ws.VAAs = append(ws.VAAs, verifC16Marshal(verifC16VAA(seed, cycle, g, s, steps[j].ver)))
+						}
+						if found && gotVer < 0 {
+							ws.Bytes = b
+						}
+						row.Window = append(row.Window, ws)
+					}
 				}
+				// recovered is a subset of attempted: no key of this writer and cycle beyond the steps it can have reached
+				prefix := []byte(fmt.Sprintf("signed/2/%s/255/", verifC16Addr(g)))
+				d.db.View(func(txn *badger.Txn) error {
+					it := txn.NewIterator(badger.DefaultIteratorOptions)
+					defer it.Close()
+					for it.Seek(prefix); it.ValidForPrefix(prefix); it.Next() {
+						seq, err := strconv.ParseUint(string(it.Item().Key()[len(prefix):]), 10, 64)
+						if err != nil || int(seq>>32) > pending[len(pending)-1].row.Cycle {
+							row.Mon = append(row.Mon, fmt.Sprintf("key %s in the store was never written", it.Item().Key()))
+							continue
+						}
+						if int(seq>>32) != cycle {
+							continue
+						}
+						row.Keys++
+						if _, ok := bySlot[int(seq&0xffffffff)]; !ok {
+							row.Mon = append(row.Mon, fmt.Sprintf("key %s is in the store although writer %d cannot have attempted it (it was seen to finish %d steps)", it.Item().Key(), g, na))
+						}
+					}
+					return nil
+				})
 			}
-			// recovered is a subset of attempted: no key of this writer and cycle beyond the steps it can have reached
-			prefix := []byte(fmt.Sprintf("signed/2/%s/255/", verifC16Addr(g)))
-			d.db.View(func(txn *badger.Txn) error {
-				it := txn.NewIterator(badger.DefaultIteratorOptions)
-				defer it.Close()
-				for it.Seek(prefix); it.ValidForPrefix(prefix); it.Next() {
-					seq, err := strconv.ParseUint(string(it.Item().Key()[len(prefix):]), 10, 64)
-					if err != nil || int(seq>>32) > cycle {
-						row.Mon = append(row.Mon, fmt.Sprintf("key %s in the store was never written", it.Item().Key()))
-						continue
-					}
-					if int(seq>>32) != cycle {
-						continue
-					}
-					row.Keys++
-					if _, ok := bySlot[int(seq&0xffffffff)]; !ok {
-						row.Mon = append(row.Mon, fmt.Sprintf("key %s is in the store although writer %d cannot have attempted it (it was seen to finish %d steps)", it.Item().Key(), g, na))
-					}
-				}
-				return nil
-			})
+			row.Total = len(expects)
 		}
-		row.Total = len(expects)
 		if err := d.Close(); err != nil {
 			row.Mon = append(row.Mon, "closing the verifier's store failed: "+err.Error())
 		}
-		enc.Encode(row)
+		for _, pc := range pending {
+			enc.Encode(pc.row)
+		}
+		pending = nil
 	}
 	// the wrapper reports a failed transaction: a store on a closed database returns an error and leaves nothing behind
 	{
